@@ -8,6 +8,8 @@ Line protocol of property C20 (see harness/c20.py).  One line = one whole histor
 object; the answer lists, per step, what the call returned and the observable state after it.
 
   nonce  <nonce-hex> <op>;…        op = P | S,ctx(1|v|r),rOdd,b,e,a,g,gacc,prv,pk-hex,inSet,sid  (sid: harness only)
+  noncek <buf|view|frozen|text> <nonce-hex> <op>;…   as `nonce`, the caller holding the nonce in that spelling;
+                                   op = P | S,… (musig2.sign) | Q,… (psbt.musig2.partial_sign), same fields
   signer <dsa|ssa> <delegated> <op>;…   op = S1 | S0 | W | E | X | F0 | F1 (backend flips: no-ops here)
   soft   <op>;…                    op = C | <method>:<argsOk>
   wallet <b,b,…> <b:i=tok,…> <op>;…   tok `!` = the subclass refuses the position, `~` = no address
@@ -26,7 +28,7 @@ def ops (s : String) : List String := if s == "_" then [] else s.splitOn ";"
 def parseNonceOp (s : String) : Option NonceOp :=
   match s.splitOn "," with
   | ["P"] => some .peek
-  | ["S", c, r, b, e, a, g, gacc, prv, pk, ins, _sid] => do
+  | ["S", c, r, b, e, a, g, gacc, prv, pk, ins, _sid] | ["Q", c, r, b, e, a, g, gacc, prv, pk, ins, _sid] => do
     let (c, ce) ← (match c with
       | "1" => some (true, Err.value) | "v" => some (false, Err.value) | "r" => some (false, Err.runtime)
       | _ => none)
@@ -46,6 +48,23 @@ def nonceTrace : List NonceOp → Bytes → List String
   | op :: rest, n =>
     let (n', o) := Nonce.step op n
     (renderNonceOut o ++ "@" ++ toHex n') :: nonceTrace rest n'
+
+/-- every spelling, both levels: `S,…` goes through `musig2.sign`, `Q,…` through `psbt.musig2.partial_sign`. -/
+def nonceKTrace (kind : NonceKind) : List String → Bytes → Option (List String)
+  | [], _ => some []
+  | tok :: rest, n => do
+    let op ← parseNonceOp tok
+    match op with
+    | .peek =>
+      let r ← nonceKTrace kind rest n
+      pure (("bytes:" ++ toHex n ++ "@" ++ toHex n) :: r)
+    | .sign x =>
+      let res := if tok.startsWith "Q" then Nonce.partialSign kind x n else Nonce.signK kind x n
+      let r ← nonceKTrace kind rest res.1
+      let o := match res.2 with
+        | .ok s => "sig:" ++ toHex s
+        | .error e => "err:" ++ e.name
+      pure ((o ++ "@" ++ toHex res.1) :: r)
 
 /-! signer -/
 def parseSignerOp (s : String) : Option (Option SignerOp) :=
@@ -185,6 +204,13 @@ def handle : List String → String
     let n ← fromHex? hex
     let l ← (ops os).mapM parseNonceOp
     pure (nonceTrace l n)
+  | ["noncek", kind, hex, os] => out do
+    let k ← (match kind with
+      | "buf" => some NonceKind.buf | "view" => some .view | "frozen" => some .frozen | "text" => some .text
+      | "bytes" => some .frozen | "roview" => some .frozen | "hex" => some .text
+      | _ => none)
+    let n ← fromHex? hex
+    nonceKTrace k (ops os) n
   | ["signer", kind, del, os] => out do
     let c ← if kind == "dsa" then some dsaCode else if kind == "ssa" then some ssaCode else none
     let d ← b01 del
